@@ -2,7 +2,7 @@
    Statements in full; proofs in Proofs/C06_nocrash.v, C06_progress.v, C06_buffered.v. *)
 From Coq Require Import ZArith List Bool Lia Arith.
 From EN Require Import Lib.Bytes Frame.Framer Frame.ReadUntil Frame.BufReadUntil Frame.JsonRaw Frame.ErrSites Frame.Generic
-  Stream.Consumer Gen.ParamsC06 Run.C06 Proofs.C06_nocrash Proofs.C06_progress Proofs.C06_buffered Proofs.C06_main.
+  Stream.Consumer Gen.ParamsC06 Run.C06 Proofs.C06_nocrash Proofs.C06_progress Proofs.C06_buffered Proofs.C06_bufloop Proofs.C06_suffix Proofs.C06_main.
 Import ListNotations.
 
 (* ------------------------------------------------------------------------------------------------------------------
@@ -189,6 +189,75 @@ Theorem skip_errors_terminates :
 Proof. exact skip_errors_terminates_pf. Qed.
 Print Assumptions skip_errors_terminates.
 
+
+(* ------------------------------------------------------------------------------------------------------------------
+   skip_errors_terminates for BufferedStreamDataConsumer: over any buffer-filling framer whose events make progress
+   (bprogressive: _buffered_readuntil, buffered fixed-size, the generic wrapper over any progressive copying framer, and
+   their lifted versions), with a non-empty receive buffer: the number of packets + parse errors plus the bytes still
+   owed (re-injected remainder + what the suspended generator counts as received) never exceeds the bytes delivered,
+   for every chunk list; and the drain loop of a receive round ends with StopIteration (or the round ended in a
+   RuntimeError) as soon as the fuel covers the backlog.
+   ------------------------------------------------------------------------------------------------------------------ *)
+Theorem skip_errors_terminates_buffered :
+  (forall P sep limit ke (dec : decoder P), 1 <= length sep -> bprogressive (bru_framer sep limit ke dec) fst) /\
+  (forall P size (dec : decoder P), 1 <= size -> bprogressive (bfx_framer size dec) (fun n => n)) /\
+  (forall P (F : framer P) held alloc, progressive F held -> bprogressive (bwrap_generic F alloc) held) /\
+  (forall P (B : bframer (epkt P)) bh, bprogressive B bh -> bprogressive (lift_bframer B) bh) /\
+  (forall P (B : bframer P) (sizehint : nat) (bh : bst_ B -> nat),
+      bprogressive B bh -> 1 <= balloc B sizehint ->
+      (forall fuel chunks,
+          let '(c', evs) := bcdeliver B sizehint fuel (bcinit B) chunks in
+          nevents evs + psi B bh c' <= Proofs.C06_progress.total_len chunks) /\
+      (forall fuel c (data : bytes), rested_b B c -> psi B bh c + length data < fuel ->
+          let '(c', evs, _) := bcstep B sizehint fuel c data in
+          In RCrash evs \/ snd (bcnext B sizehint c' None) = RStop)).
+Proof. exact skip_errors_terminates_buffered_pf. Qed.
+Print Assumptions skip_errors_terminates_buffered.
+
+(* ------------------------------------------------------------------------------------------------------------------
+   the unread remainder: what every packet / parse error carries is exactly a suffix of the bytes the parser had been
+   given since its previous event (copying: accumulated buffer ++ chunk; buffer-filling: the received prefix of the
+   receive buffer; raw JSON: everything received for this document)
+   ------------------------------------------------------------------------------------------------------------------ *)
+Theorem error_remainder_is_suffix :
+  (forall P sep limit ke (dec : decoder P) st chunk,
+      event_suffix (ru_acc st ++ chunk) (ffeed (ru_framer sep limit ke dec) st chunk)) /\
+  (forall P size (dec : decoder P) st chunk,
+      event_suffix (rx_acc st ++ chunk) (ffeed (rx_framer size dec) st chunk)) /\
+  (forall P sep limit ke (dec : decoder P) st mem n,
+      bevent_suffix (firstn (fst st + n) mem) (bfeed (bru_framer sep limit ke dec) st mem n)) /\
+  (forall P size (dec : decoder P) nread mem n,
+      bevent_suffix (firstn (nread + n) mem) (bfeed (bfx_framer size dec) nread mem n)) /\
+  (forall P limit (dec : decoder P) st chunk,
+      event_suffix (j_acc st ++ chunk) (ffeed (json_framer limit dec) st chunk)).
+Proof. exact error_remainder_is_suffix_pf. Qed.
+Print Assumptions error_remainder_is_suffix.
+
+(* ------------------------------------------------------------------------------------------------------------------
+   BufferedStreamDataConsumer.__save_remainder_in_buffer raises ValueError when the remainder is longer than the receive
+   buffer (modelled in Run/C06.v as the event [9, 2]).  Through the generic buffered wrapper the generator is sent
+   buffer[:nbytes]; the remainder is no longer than that slice -- hence fits -- for a loader that only moves forward
+   (after EOF on the previous content it reads into the new slice before it can return or fail) and for a decompressor
+   whose unused_data is part of the last slice.
+   ------------------------------------------------------------------------------------------------------------------ *)
+Theorem remainder_fits_receive_buffer :
+  (forall P limit (load : bytes -> lres P) expected st (content ch : bytes),
+      st = None /\ content = [] \/ st = Some (content, length content) ->
+      (forall p pos, load (content ++ ch) = LDone p pos -> length content <= pos) ->
+      (forall k pos, load (content ++ ch) = LRaise k pos -> length content <= pos) ->
+      match ffeed (fb_framer limit load expected) st ch with
+      | Done _ rest | Fail _ rest => length rest <= length ch
+      | _ => True
+      end) /\
+  (forall P D dnew (dd : D -> bytes -> (D * bytes) + Z) deof dunused expected (inner : bytes -> ores P) inner_declared st (ch : bytes),
+      (forall d c d' out, dd d c = inl (d', out) -> deof d' = true -> length (dunused d') < length c) ->
+      match ffeed (cz_framer D dnew dd deof dunused expected inner inner_declared) st ch with
+      | Done _ rest | Fail _ rest => length rest <= length ch
+      | _ => True
+      end).
+Proof. exact remainder_fits_receive_buffer_pf. Qed.
+Print Assumptions remainder_fits_receive_buffer.
+
 (* ---- non-vacuity ---- *)
 (* Crash is reachable: a codec that lets class 6 (RecursionError) escape, as JSONSerializer did before the F3 fix *)
 Example crash_reachable_when_undeclared :
@@ -223,4 +292,10 @@ Qed.
 (* the progress hypothesis on the loader is necessary: a loader that fails without reading makes no progress *)
 Example rewinding_loader_makes_no_progress :
   ffeed (fb_framer 100 (fun _ : bytes => @LRaise bytes 2%Z 0) (fun _ => true)) None [1; 2; 3]%N = Fail EDecode [1; 2; 3]%N.
+Proof. vm_compute. reflexivity. Qed.
+
+(* the remainder overflow is reachable in the model with a loader that reports an error position behind what it read *)
+Example remainder_overflow_needs_a_backward_loader :
+  ffeed (fb_framer 100 (fun c : bytes => if Nat.ltb (length c) 4 then @LEof bytes (length c) else LRaise 2%Z 1) (fun _ => true))
+        (Some ([1; 2]%N, 2)) [3; 4]%N = Fail EDecode [2; 3; 4]%N.
 Proof. vm_compute. reflexivity. Qed.
